@@ -449,23 +449,54 @@ func observe(p *pkt, wire, decoded bool, key []byte) obs {
 
 // ---------------------------------------------------------------- Gallina printing
 
+// gBytes prints a byte string with the constructors x00..xff of Coq.Init.Byte.byte
+// (Spao.bs maps them to N): coqc elaborates these several times faster than numerals.
+func gBytes(b []byte) string {
+	if len(b) == 0 {
+		return "[]"
+	}
+	var sb strings.Builder
+	sb.WriteString("(Spao.bs [")
+	for i, x := range b {
+		if i > 0 {
+			sb.WriteByte(';')
+		}
+		fmt.Fprintf(&sb, "x%02x", x)
+	}
+	sb.WriteString("])")
+	return sb.String()
+}
+
+// gN prints a number; large ones as big-endian bytes (Spao.nb), because Coq's numeral
+// interpretation is slow on long literals.
+func gN(v uint64) string {
+	if v < 1<<16 {
+		return vgen.N(v)
+	}
+	b := be64(v)
+	for b[0] == 0 {
+		b = b[1:]
+	}
+	return "(Spao.nb " + strings.TrimPrefix(gBytes(b), "(Spao.bs ")
+}
+
 func gInfo(i info, onehop bool) string {
 	r, r1 := i.Rsv, i.Rsv1
 	if onehop {
 		r, r1 = 0, 0
 	}
-	return vgen.App("Spao.mkInfo", vgen.N(uint64(r)), vgen.B(i.Peer), vgen.B(i.ConsDir),
-		vgen.N(uint64(r1)), vgen.N(uint64(i.SegID)), vgen.N(uint64(i.TS)))
+	return vgen.App("Spao.mkInfo", gN(uint64(r)), vgen.B(i.Peer), vgen.B(i.ConsDir),
+		gN(uint64(r1)), gN(uint64(i.SegID)), gN(uint64(i.TS)))
 }
 
 func gHop(h hop) string {
-	return vgen.App("Spao.mkHop", vgen.B(h.IAlert), vgen.B(h.EAlert), vgen.N(uint64(h.Exp)),
-		vgen.N(uint64(h.In)), vgen.N(uint64(h.Eg)), vgen.Bytes(h.Mac[:]))
+	return vgen.App("Spao.mkHop", vgen.B(h.IAlert), vgen.B(h.EAlert), gN(uint64(h.Exp)),
+		gN(uint64(h.In)), gN(uint64(h.Eg)), gBytes(h.Mac[:]))
 }
 
 func gMeta(m meta) string {
-	return vgen.App("Spao.mkMeta", vgen.N(uint64(m.CurrINF)), vgen.N(uint64(m.CurrHF)),
-		vgen.N(uint64(m.Seg[0])), vgen.N(uint64(m.Seg[1])), vgen.N(uint64(m.Seg[2])))
+	return vgen.App("Spao.mkMeta", gN(uint64(m.CurrINF)), gN(uint64(m.CurrHF)),
+		gN(uint64(m.Seg[0])), gN(uint64(m.Seg[1])), gN(uint64(m.Seg[2])))
 }
 
 func gPath(d *pathD, rawInfoRsv bool) string {
@@ -478,8 +509,8 @@ func gPath(d *pathD, rawInfoRsv bool) string {
 	case kOneHop:
 		return vgen.App("Spao.POneHop", gInfo(d.OHInfo, true), gHop(d.H1), gHop(d.H2))
 	case kEpic:
-		return vgen.App("Spao.PEpic", vgen.N(uint64(d.EpTS)), vgen.N(uint64(d.EpCtr)),
-			vgen.Bytes(d.PHVF), vgen.Bytes(d.LHVF), gMeta(d.M), infos(), vgen.ListOf(d.Hops, gHop))
+		return vgen.App("Spao.PEpic", gN(uint64(d.EpTS)), gN(uint64(d.EpCtr)),
+			gBytes(d.PHVF), gBytes(d.LHVF), gMeta(d.M), infos(), vgen.ListOf(d.Hops, gHop))
 	}
 	return "Spao.PEmpty"
 }
@@ -492,12 +523,12 @@ func gPkt(p *pkt, rawInfoRsv bool) string {
 	ext = append(ext, p.SpaoRsv)
 	ext = append(ext, p.Auth...)
 	return vgen.App("Spao.mkPkt",
-		vgen.N(uint64(p.Version)), vgen.N(uint64(p.TC)), vgen.N(uint64(p.Flow)),
-		vgen.N(uint64(p.NextHdr)), vgen.N(uint64(p.HdrLen)), vgen.N(uint64(p.PayLen)),
-		vgen.N(uint64(p.PathType)), vgen.N(uint64(p.DT)), vgen.N(uint64(p.ST)),
-		vgen.N(p.DstIA), vgen.N(p.SrcIA), vgen.Bytes(p.DstHost), vgen.Bytes(p.SrcHost),
-		gPath(&p.Path, rawInfoRsv), vgen.Bytes(ext),
-		vgen.N(uint64(p.Alg)), vgen.N(p.TS), vgen.N(uint64(p.L4)), vgen.Bytes(p.Pld))
+		gN(uint64(p.Version)), gN(uint64(p.TC)), gN(uint64(p.Flow)),
+		gN(uint64(p.NextHdr)), gN(uint64(p.HdrLen)), gN(uint64(p.PayLen)),
+		gN(uint64(p.PathType)), gN(uint64(p.DT)), gN(uint64(p.ST)),
+		gN(p.DstIA), gN(p.SrcIA), gBytes(p.DstHost), gBytes(p.SrcHost),
+		gPath(&p.Path, rawInfoRsv), gBytes(ext),
+		gN(uint64(p.Alg)), gN(p.TS), gN(uint64(p.L4)), gBytes(p.Pld))
 }
 
 // ---------------------------------------------------------------- generators
@@ -907,7 +938,7 @@ func main() {
 	run.CheckFn = "Spao.check"
 	run.DiagFn = "Spao.diag"
 	run.CaseType = "Spao.case"
-	run.ShardSize = 150
+	run.ShardSize = 110
 	run.Rule = "case = (base packet, variant) under one SPI; bases: random packets of the 4 path types x 5 SPI " +
 		"kinds, built as structs (scion.Decoded / scion.Raw, sender side) or as hand-written wire bytes with " +
 		"HBH/E2E extension headers decoded by slayers (receiver side); variants: one change per field named by " +
@@ -915,8 +946,16 @@ func main() {
 		"header lengths and error cases. non-trivial = both packets were serialized and tagged by the " +
 		"implementation, i.e. the equal/different decision was reached"
 	rnd := vgen.NewRand(run.Seed)
-	nBase := run.Count(40, 700)
+	nBase := run.Count(20, 400)
 	key := []byte{0, 1, 2, 3, 4, 5, 6, 7, 8, 9, 10, 11, 12, 13, 14, 15}
+
+	// Base packets shared by many cases are defined once per shard (in the prelude) and
+	// referred to by name: coqc spends most of its time elaborating the case terms.
+	baseName := map[*pkt]string{}
+	var prelude strings.Builder
+	prelude.WriteString("From Coq Require Import Strings.Byte.\n")
+	sharing := nBase <= 40 // every shard carries the whole prelude
+	shareBase := sharing
 
 	emit := func(kind, name string, p, q *pkt, wire, decoded bool, mutable bool) {
 		// scion.Decoded cannot carry the reserved info bits; macInputStruct falls back to
@@ -944,11 +983,22 @@ func main() {
 			}
 			return
 		}
-		term := vgen.App("Spao.CPair", vgen.N(uint64(p.SPI)), vgen.N(uint64(q.SPI)), gPkt(p, rawRsv), gPkt(q, rawRsv),
-			vgen.Opt(vgen.Bytes(o1.Hdr), o1.OK), vgen.Opt(vgen.Bytes(o2.Hdr), o2.OK),
+		pTerm, rTerm := gPkt(p, rawRsv), vgen.Opt(gBytes(o1.Hdr), o1.OK)
+		if shareBase {
+			n, ok := baseName[p]
+			if !ok {
+				n = fmt.Sprintf("b%d", len(baseName))
+				baseName[p] = n
+				fmt.Fprintf(&prelude, "Definition %s : Spao.pkt := %s.\nDefinition r%s : option (list N) := %s.\n",
+					n, pTerm, n, rTerm)
+			}
+			pTerm, rTerm = n, "r"+n
+		}
+		term := vgen.App("Spao.CPair", gN(uint64(p.SPI)), gN(uint64(q.SPI)), pTerm, gPkt(q, rawRsv),
+			rTerm, vgen.Opt(gBytes(o2.Hdr), o2.OK),
 			vgen.B(o1.TagOK && o2.TagOK), vgen.B(o1.Tag != nil && bytes.Equal(o1.Tag, o2.Tag)))
 		nontrivial := o1.OK && o2.OK
-		run.Add(kind, term, term, nontrivial, desc, tags...)
+		run.Add(kind, term, fmt.Sprint(p.SPI, q.SPI)+gPkt(p, rawRsv)+gPkt(q, rawRsv), nontrivial, desc, tags...)
 		run.Tally("field:" + name)
 		if !nontrivial {
 			run.Tally("result:error")
@@ -1021,21 +1071,28 @@ func main() {
 		dt, st uint8
 	}{{[3]uint8{27, 26, 26}, 0, 2}, {[3]uint8{26, 26, 26}, 2, 3}, {[3]uint8{27, 27, 26}, 0, 0},
 		{[3]uint8{63, 63, 63}, 3, 3}, {[3]uint8{63, 10, 0}, 1, 1}} {
-		if run.Tier != "thorough" && i >= 3 {
-			break
+		quick := run.Tier != "thorough"
+		if quick && i != 0 && i != 2 {
+			continue
 		}
+		shareBase = false // ~1000-byte paths: not worth carrying in every shard
 		r := rnd.Fork(uint64(1000000 + i))
 		p := genPkt(r, kScion, i%5, false, false)
 		p.DT, p.ST = c.dt, c.st
 		p.DstHost, p.SrcHost = r.Bytes(addrLen(c.dt)), r.Bytes(addrLen(c.st))
 		p.Path.fillScion(r, c.hops, false)
 		p.Path.ForceDecoded = true
-		q := p.clone()
-		q.Path.Hops[len(q.Path.Hops)-1].Mac[5] ^= 1
-		emit("boundary", "hop-mac", p, q, false, true, false)
-		q = p.clone()
-		q.Path.M.CurrHF = (q.Path.M.CurrHF + 1) & 63
-		emit("boundary", "curr-hf", p, q, false, true, true)
+		if !quick || i == 0 {
+			q := p.clone()
+			q.Path.Hops[len(q.Path.Hops)-1].Mac[5] ^= 1
+			emit("boundary", "hop-mac", p, q, false, true, false)
+		}
+		if !quick || i == 2 {
+			q := p.clone()
+			q.Path.M.CurrHF = (q.Path.M.CurrHF + 1) & 63
+			emit("boundary", "curr-hf", p, q, false, true, true)
+		}
+		shareBase = sharing
 	}
 	for i := 0; i < 4; i++ {
 		r := rnd.Fork(uint64(2000000 + i))
@@ -1060,6 +1117,7 @@ func main() {
 		}
 		emit("malformed", "host-length-mismatch", p, q, false, r.Bool(), false)
 	}
+	run.Prelude = prelude.String()
 	run.Finish()
 }
 
